@@ -44,7 +44,9 @@ func menu(i int) []*st {
 	n := func(p string) string { return fmt.Sprintf("%s%d", p, i) }
 	return []*st{
 		leaf(n("l")),
-		{kw: "leaf", arg: n("d"), kids: []*st{{kw: "type", arg: "string"}, {kw: "description", arg: "two words"}, {kw: "default", arg: "x y"}}},
+		{kw: "leaf", arg: n("d"), kids: []*st{{kw: "type", arg: "string"}, {kw: "description", arg: "two words"}, {kw: "default", arg: "x y"},
+			// backslashes are escapes only inside double quotes: the unquoted and single-quoted forms are literal
+			{kw: "units", arg: "C:\\temp\\new\\\\x"}}},
 		{kw: "leaf-list", arg: n("ll"), kids: []*st{{kw: "type", arg: "string"}}},
 		{kw: "list", arg: n("li"), kids: []*st{{kw: "key", arg: "k"}, leaf("k")}},
 		// shorthand cases before, between and after an explicit case, and a non-case statement last
@@ -83,12 +85,23 @@ func quotings(v string, all bool) []string {
 	if simple {
 		out = append(out, v)
 	}
-	out = append(out, "\""+v+"\"", "'"+v+"'")
+	// inside double quotes a backslash and a double quote are written escaped; unquoted and
+	// single-quoted text is taken literally
+	dq := func(x string) string {
+		return "\"" + strings.NewReplacer("\\", "\\\\", "\"", "\\\"").Replace(x) + "\""
+	}
+	out = append(out, dq(v))
+	if !strings.Contains(v, "'") {
+		out = append(out, "'"+v+"'")
+	}
 	if all {
 		for i := 1; i < len(v); i++ {
-			out = append(out, "\""+v[:i]+"\" + \""+v[i:]+"\"", "'"+v[:i]+"'+\""+v[i:]+"\"", "\""+v[:i]+"\"\n  +\n  '"+v[i:]+"'")
+			out = append(out, dq(v[:i])+" + "+dq(v[i:]), "\"\"+"+dq(v[:i])+"\n  +\n  "+dq(v[i:]))
+			if !strings.Contains(v, "'") {
+				out = append(out, "'"+v[:i]+"'+"+dq(v[i:]), dq(v[:i])+"\n  +\n  '"+v[i:]+"'")
+			}
 		}
-		out = append(out, "\"\" + \""+v+"\"")
+		out = append(out, "\"\" + "+dq(v))
 	}
 	return out
 }
